@@ -286,6 +286,23 @@ def _pack(ctx, name):
 # --------------------------------------------------------------------------------------------
 
 
+def _interleave(tasks):
+    """Round-robin over the task kinds (order inside a kind kept), so that every kind of a plan gets its share of workers
+    from the start and none is starved when the budget is hit on a loaded machine."""
+    kinds, by = [], {}
+    for t in tasks:
+        if t[0] not in by:
+            by[t[0]] = []
+            kinds.append(t[0])
+        by[t[0]].append(t)
+    out = []
+    while any(by[k] for k in kinds):
+        for k in kinds:
+            if by[k]:
+                out.append(by[k].pop(0))
+    return out
+
+
 def main(argv):
     if len(argv) < 2:
         print("usage: check <ID> quick|thorough [--replay FILE]")
@@ -376,7 +393,7 @@ def main(argv):
             violations.append(f.to_json())
 
     # 3. generated search
-    tasks = mod.plan(tier, seed)
+    tasks = _interleave(mod.plan(tier, seed))
     nproc = int(os.environ.get("VF_PROCS", "16"))
     args = [(modname, prop, tier, seed, still_known, deadline, n, kw) for (n, kw) in tasks]
     results = []
